@@ -193,7 +193,7 @@ Authenticate(S, c) ==
         good == reqpw = <<>> \/ (k.pass # <<>> /\ k.pass[1] = reqpw[1])
         n == k.nick[1]
     IN
-    IF maskBad THEN Res(S, << Srv(c, "ERROR", <<"maskmismatch">>) >>)
+    IF maskBad THEN Res(S, << Srv(c, "ERROR", <<"invalid">>) >>)
     ELSE IF ~good
     THEN (* wrong or missing password: 464, the connection is closed, no user *)
          LET S1 == SetConn(S, c, [k EXCEPT !.quit = TRUE]) IN
@@ -940,7 +940,7 @@ Validate(cmd) ==
     ELSE <<>>
 
 ErrOut(S, c, e) ==
-    IF e.kind \in {"wrongparam", "parammismatch", "unknownsub"} THEN Srv(c, "ERROR", <<e.kind>>)
+    IF e.kind \in {"wrongparam", "parammismatch", "unknownsub"} THEN Srv(c, "ERROR", <<"invalid">>)
     ELSE Num(S, c, e.kind, e.a)
 
 (***************************************************************************)
